@@ -337,8 +337,10 @@ SELECTS = {
     "SELECT id, name, 1 FROM t": (None, [0, 1, ("c", 1)]),
 }
 SELECTS_NT = [k for k, v in SELECTS.items() if v[0] is not None]
-SCHEMAS = {"untyped": "CREATE TABLE t (id, name, qty)",
-           "typed": "CREATE TABLE t (id INTEGER PRIMARY KEY, name TEXT, qty INT)"}
+# the columns _name / _qty hold copies of name / qty: column names that start with an underscore (like the names of the
+# request options _order_by / _as_scalars) are ordinary columns for filters
+SCHEMAS = {"untyped": "CREATE TABLE t (id, name, qty, _name, _qty)",
+           "typed": "CREATE TABLE t (id INTEGER PRIMARY KEY, name TEXT, qty INT, _name TEXT, _qty INT)"}
 METHODS = ["list", "all", "one", "one_or_none", "t_list", "t_one", "t_one_or_none"]
 OPS = ['=', '!=', 'IN', 'NOT IN', 'IS NULL', 'IS NOT NULL', 'LIKE', 'NOT LIKE', '>', '<', '>=', '<=']
 STR_POOL = ["", "a", "A", "ab", "Ab", "b", "a%", "a_b", "%", "_", "O'Reilly", "x' OR '1'='1", "1; DROP TABLE t; --",
@@ -348,6 +350,8 @@ LIKE_POOL = ["%", "a%", "%b", "_", "a_", "%'%", "A%", "%a%", "", "a", "%%", "_%_
 STATICS = ["id = qty", "name IS NULL", "(id > 2 OR qty IS NULL)", "1", "name = 'a'", "qty + 0 < id", "0",
            "NOT (id = 1)", "name IS NOT NULL AND id < 4"]
 FIELDS = ["name", "qty", "id"]
+US_FIELDS = ["_name", "_qty"]
+COL_OF = {"id": 0, "name": 1, "qty": 2, "_name": 1, "_qty": 2}     # field -> position in a case row [id, name, qty]
 
 # Values that LOOK like something the compiler itself knows: operators, keywords, placeholders, the literals it
 # emits, names of its special keyword arguments, column names.  Besides this fixed list every short string
@@ -430,7 +434,11 @@ RULE = ("random filter lists (0-4 positional filters + keyword filters + ignored
         "objects of both placeholder styles over one table, 4-10 steps: requests (any method on any connection, "
         "overriding order / scalars), condition objects made once (make / SqlFieldValCondition / _or, also nested in "
         "each other) and used in several requests and in direct make_text_update_values calls of both styles, the "
-        "list / set objects given to them emptied, filled or changed between requests.  Non-trivial = a statement "
+        "list / set objects given to them emptied, filled or changed between requests; 60 % of the all() results are "
+        "consumed LAZILY (1-2 rows taken, then 1-9 further requests - on the same SqlMethod / connection too, several "
+        "results open at once - before the rest is taken).  The table has two more columns _name / _qty (copies of name "
+        "/ qty): 15 % of the keyword filters and 5 % of the tuple filters are on these underscore-prefixed names, alone "
+        "and next to the _order_by / _as_scalars options.  Non-trivial = a statement "
         "with at least one filter was executed on a non-empty table, a compile case that produced text, or a session "
         "with two filtered requests.")
 
@@ -439,7 +447,7 @@ def _pick_scalar(rng, rows=None, col=None):
     r = rng.random()
     if rows and r < 0.7:
         row = rng.choice(rows)
-        v = row[{"id": 0, "name": 1, "qty": 2}[col]] if col else rng.choice(row)
+        v = row[COL_OF[col]] if col else rng.choice(row)
         return v
     if r < 0.65:
         return None
@@ -480,6 +488,8 @@ def _gen_seq(rng, rows, col, kinds=("list", "tuple", "set")):
 
 def _gen_leaf(rng, rows):
     f = rng.choice(FIELDS)
+    if rng.random() < 0.05:
+        f = rng.choice(US_FIELDS)
     op = rng.choice(OPS)
     if op in ('=', '!='):
         r = rng.random()
@@ -507,6 +517,8 @@ def _gen_kw(rng, rows, maxn=2):
     kw = {}
     for _ in range(rng.choice([0, 0, 1, 1, 2][:maxn + 3])):
         f = rng.choice(FIELDS)
+        if rng.random() < 0.15:
+            f = rng.choice(US_FIELDS)
         r = rng.random()
         kw[f] = None if r < 0.2 else _gen_seq(rng, rows, f, ("list", "tuple")) if r < 0.4 else _pick_scalar(rng, rows, f)
     return kw
@@ -642,7 +654,7 @@ def _own_mutables(a, out, path=()):
 def _gen_items(rng, rows, col, kind_):
     items = []
     for _ in range(rng.choice([0, 0, 1, 1, 2, 3])):
-        v = _pick_scalar(rng, rows, col if col in FIELDS else None)
+        v = _pick_scalar(rng, rows, col if col in COL_OF else None)
         if kind_ == "set" and v in items:
             continue
         items.append(v)
@@ -697,7 +709,7 @@ def _vary_value(rng, rows, col, v):
             new = _gen_items(rng, rows, col, k)
         return {k: new}
     for _ in range(5):
-        w = _pick_scalar(rng, rows, col if col in FIELDS else None)
+        w = _pick_scalar(rng, rows, col if col in COL_OF else None)
         if w is not None and type(w) is type(v):
             return w
     return v
@@ -795,6 +807,8 @@ def _gen_session(rng):
                 st["kw_order"] = [rng.choice([None, "id", "id DESC", "id ASC"])]
             if rng.random() < 0.25 and not tm:
                 st["kw_scalars"] = rng.random() < 0.5
+        if st["mtd"] == "all" and "lazy" not in st and rng.random() < 0.6:
+            st = dict(st, lazy=[rng.choice([1, 1, 2]), rng.choice([1, 1, 2, 3, 9])])
         steps.append(st)
         last_call = st
         ncalls += 1
@@ -829,6 +843,19 @@ def _fixed_sessions():
                               call(1, 0, [{"ref": 1}, {"ref": 0}]), {"op": "text", "c": 1, "pt": 0, "pre": 0},
                               {"op": "set", "c": 0, "seq": 0, "items": []}, call(1, 1, [{"ref": 1}]),
                               call(0, 0, [{"ref": 0}], mtd="one_or_none")]})
+        # results of all() consumed lazily and interleaved: a walk (one row taken, the same SqlMethod asked again on the
+        # same connection - also through its SqlMethodT - before the rest is taken), two results open at once (zip)
+        out.append({"k": "session", "schema": "untyped", "rows": rows, "methods": [m0, m1, {"wrap": 0}], "conns": conns,
+                    "steps": [call(0, 0, [t3("id", "<", 6)], mtd="all", lazy=[1, 2]),
+                              call(0, 0, [], {"_qty": 1}, mtd="all", lazy=[1, 9]),
+                              call(0, 0, [t3("qty", "=", None)], mtd="list"),
+                              call(0, 1, [t3("id", ">", 1)], mtd="all", lazy=[2, 1], kw_order=["id DESC"]),
+                              call(0, 1, [t3("id", "IN", {"list": [2, 6]})], mtd="one_or_none", kw_scalars=True),
+                              call(2, 1, [], {"_name": "James"}, mtd="t_list"),
+                              call(1, 0, [t3("id", ">=", 2)], mtd="all", lazy=[1, 1]),
+                              call(1, 0, [t3("id", "<", 3)], mtd="all", lazy=[1, 1]),
+                              call(1, 1, [], mtd="all", lazy=[1, 0]),
+                              call(0, 0, [], {"id": 4}, mtd="one")]})
     return out
 
 
@@ -872,6 +899,15 @@ def _fixed_cases():
     q([t3("id", "in", {"set": [1, 2, 3]})], kw_order=["id DESC"])
     q([t3("id", "in", {"set": [1, 2, 3]})], kw_order=[None], order_by="id DESC")
     q([t3("id", "<", 4)], group_by="id", mtd="t_list")
+    # keyword filters on columns whose names start with an underscore (as the names of the request options do)
+    q([], {"_qty": 1})
+    q([], {"_name": "James"}, "one")
+    q([], {"_qty": None}, "one_or_none")
+    q([], {"_qty": {"list": [7, "7"]}, "id": 4}, kw_order=["id DESC"], kw_scalars=True)
+    q([t3("_qty", "=", 1)], {"_name": "Arnold", "name": "Arnold"}, mysql=True)
+    q([{"or": [t3("id", "=", 3)], "kw": {"_qty": 0}}], {"_name": {"tuple": ["", "Harry"]}}, kw_order=[None])
+    q([], {"_name": None}, "t_list", schema="typed")
+    q([], {"_qty": "7"}, "all", as_scalars=True)
     for a in [t3("name", "IN", {"list": []}), t3("name", "NOT IN", {"tuple": []}), {"or": [], "kw": {}},
               t3("name", "=", None), t3("name", "!=", None), t3("a.b", "Not In", {"list": [1, None, "x"]}),
               {"s": "a.id = b.parent_id"}, t3("x", "=", {"set": [1]}), None]:
@@ -1198,7 +1234,7 @@ def _open_db(schema, rows):
     import sqlite3
     db = sqlite3.connect(":memory:")
     db.execute(SCHEMAS[schema])
-    db.executemany("INSERT INTO t (id, name, qty) VALUES (?, ?, ?)", [tuple(r) for r in rows])
+    db.executemany("INSERT INTO t (id, name, qty, _name, _qty) VALUES (?, ?, ?, ?, ?)", [tuple(r) + tuple(r[1:]) for r in rows])
     db.commit()
     return db
 
@@ -1267,7 +1303,7 @@ def _measure(db, leaves, sts, obs):
     obs["stored"] = [list(r) for r in cur.execute("SELECT id, name, qty FROM t ORDER BY id")]
     atoms = {}
     for f_, op, v in leaves:
-        if f_ not in FIELDS or not isinstance(op, str):
+        if f_ not in COL_OF or not isinstance(op, str):
             continue
         opu = op.upper()
         items = list(v.values())[0] if isinstance(v, dict) else [v]
@@ -1371,10 +1407,24 @@ def _run_session(case, subst):
     kept = []
     out = []
     all_eff = []
+    pending = []          # lazily consumed all() results: [steps still to run before it is finished, generator, head, so, scalars]
+
+    def finish(force):
+        for p in list(pending):
+            p[0] -= 1
+            if force or p[0] < 0:
+                pending.remove(p)
+                try:
+                    _result_obs(p[2] + list(p[1]), "list", p[4], p[3])
+                except Exception as e:
+                    p[3]["res"] = ["err", SX.exc_name(e)]
+
     for st in case["steps"]:
         op = st["op"]
         so = {}
         out.append(so)
+        if op in ("call", "text"):
+            finish(False)
         if op == "prep":
             valued = _mk_values(sa(st["arg"]), [])
             k = {"valued": valued, "obj": None}
@@ -1450,12 +1500,26 @@ def _run_session(case, subst):
                 kw["_as_scalars"] = st["kw_scalars"]
             f = getattr(methods[st["m"]], mtd[2:] if tm else mtd)
             args = [_mk_arg(a, SqlMethod, kept, made) for a in valued]
-            _result_obs(f(conns[st["conn"]], *args, **kw), mtd, scalars_eff, so)
+            if mtd == "all" and "lazy" in st:
+                # the result of all() is consumed LAZILY: st["lazy"] = [items taken now (>= 1: the request is executed),
+                # number of later call / text steps that run before the rest is taken]
+                it = iter(f(conns[st["conn"]], *args, **kw))
+                head = []
+                for _ in range(max(1, st["lazy"][0])):
+                    try:
+                        head.append(next(it))
+                    except StopIteration:
+                        break
+                so["res"] = ["err", "LazyResultNeverFinished"]
+                pending.append([st["lazy"][1], it, head, so, scalars_eff])
+            else:
+                _result_obs(f(conns[st["conn"]], *args, **kw), mtd, scalars_eff, so)
         except Exception as e:
             so["res"] = ["err", SX.exc_name(e)]
         so["execs"] = execs[n0:]
         after = ([_flatten(a, kept) for a in valued], {k: _flat_value(v) for k, v in kwv.items()})
         so["mut"] = bool(after != (so["eff"], so["effkw"]) or any(type(x) is not type(y) or x != y for x, y in made))
+    finish(True)
     obs = {"steps": out, "sets": []}
     if not subst:
         leaves = []
@@ -1605,7 +1669,8 @@ def _c_rows(rows_json):
     rows = []
     for i, name, qty in rows_json:
         rows.append(f"{{| r_id := {SX.cZ(i)}; r_cols := [({SX.cstr('id')}, SInt {SX.cZ(i)}); "
-                    f"({SX.cstr('name')}, {_c_scalar(name)}); ({SX.cstr('qty')}, {_c_scalar(qty)})] |}}")
+                    f"({SX.cstr('name')}, {_c_scalar(name)}); ({SX.cstr('qty')}, {_c_scalar(qty)}); "
+                    f"({SX.cstr('_name')}, {_c_scalar(name)}); ({SX.cstr('_qty')}, {_c_scalar(qty)})] |}}")
     return '[' + '; '.join(rows) + ']' if rows else '(@nil row)'
 
 
@@ -1831,7 +1896,7 @@ def _spec(a):
 
 def _truth(t, rid, row, obs):
     k = t[0]
-    col = {"id": 0, "name": 1, "qty": 2}
+    col = COL_OF
     if k == "static":
         return _tv(obs["statics"][t[1]][rid])
     if k == "or":
